@@ -135,6 +135,9 @@ class Ctx:
     # ---------------------------------------------------------------- output
     def result(self):
         self.reach.stop()
+        from vm import callstyle
+        for k, v in callstyle.STATS.items():
+            self.counters[k] = self.counters.get(k, 0) + v
         return {'reach': self.reach.counts,
                 'evaluations': self.evaluations, 'fps': sorted(self.fps),
                 'counters': self.counters, 'samples': self.samples,
@@ -146,7 +149,9 @@ class Ctx:
 def run_indices(mod, ctx, indices):
     """Generic loop: one run_case per index; escaping exceptions are
     reported (never swallowed)."""
+    from vm import callstyle
     for index in indices:
+        callstyle.reseed(common.sub_rng(ctx.seed, ctx.id, index, 'callstyle'))
         try:
             mod.run_case(ctx, index)
         except Violation as v:
